@@ -376,13 +376,15 @@ def build(spec, kind='real', dtype=None, weight_hook=None, explicit_ids=False, r
     for ri, r in enumerate(spec['rules']):
         g = fggs.Graph()
         nodes = []
+        def _explicit(i):
+            return explicit_ids is True or (explicit_ids == 'mixed' and (ri + i) % 2 == 0)
         for j, nl in enumerate(r['nodes']):
-            v = fggs.Node(nls[nl], id=f'{node_prefix}{ri}_{j}' if explicit_ids else None)
+            v = fggs.Node(nls[nl], id=f'{node_prefix}{ri}_{j}' if _explicit(j) else None)
             g.add_node(v); nodes.append(v)
         edges = []
         for k, e in enumerate(r['edges']):
             ed = fggs.Edge(els[e['label']], [nodes[a] for a in e['att']],
-                           id=f'{edge_prefix}{ri}_{k}' if explicit_ids else None)
+                           id=f'{edge_prefix}{ri}_{k}' if _explicit(k + 1) else None)
             g.add_edge(ed); edges.append(ed)
         g.ext = [nodes[p] for p in r['ext']]
         rule = fggs.HRGRule(els[r['lhs']], g)
@@ -391,7 +393,12 @@ def build(spec, kind='real', dtype=None, weight_hook=None, explicit_ids=False, r
     for n in spec['nonterminals']:
         fgg.add_edge_label(els[n])
     for n, size in spec['node_labels'].items():
-        dom = RangeDomain(size) if range_domains else FiniteDomain([f'{n}_{i}' for i in range(size)])
+        if range_domains is True or (range_domains == 'mixed' and len(n) % 2 == 0):
+            dom = RangeDomain(size)
+        elif range_domains == 'int-values':
+            dom = FiniteDomain(list(range(10, 10 + size)))
+        else:
+            dom = FiniteDomain([f'{n}_{i}' for i in range(size)])
         fgg.add_domain(nls[n], dom)
     for n, t in spec['terminals'].items():
         if t.get('pattern') and weight_hook is None:
